@@ -175,6 +175,9 @@ def model_run(dt, meta, dtid, k, ctx, modtext, modname):
     seams.MUTED[0] = True
     try:
         with warnings.catch_warnings():
+            # warnings of the reference execution are not shown anywhere (filters the
+            # doctest itself installs afterwards still take precedence)
+            warnings.simplefilter('ignore')
             _model_loop(E, dt, steps, msteps, dtid, k, ctx, modtext, modname)
     finally:
         seams.MUTED[0] = False
